@@ -182,6 +182,25 @@ class SimFile:
             self.fs.closed_ok.add(self.path)
 
 
+class SimReadFile(io.BytesIO):
+    """A handle opened 'rb': a private copy of the bytes.  Its reads are
+    read-side fault points while the filesystem tracks reads."""
+
+    def __init__(self, fs, path, data):
+        super().__init__(data)
+        self._fs, self.name = fs, path
+
+    def read(self, n=-1):
+        if self._fs.track_reads:
+            self._fs._revent('read', self.name)
+        return super().read(-1 if n is None else n)
+
+    def readinto(self, b):
+        if self._fs.track_reads:
+            self._fs._revent('read', self.name)
+        return super().readinto(b)
+
+
 class SimFS(AbstractFileSystem):
     protocol = 'sim'
     cachable = False
@@ -206,6 +225,13 @@ class SimFS(AbstractFileSystem):
         # faults
         self.op_calls = 0               # mutating calls since begin_op()
         self.plan = {}                  # k -> kind
+        # read-side calls (open:rb, read, cat, info, ls) are numbered apart
+        # from the mutating ones and only while track_reads is on, so that the
+        # numbering of mutating calls is the same with and without them
+        self.track_reads = False
+        self.rd_calls = 0
+        self.rplan = {}                 # j -> 'eio_read'
+        self.rlog = []                  # [j, op, path, mutating k so far, site]
         self.double = False             # arm an eio on the call after a fault
         self._double_armed = False
         self.fault_rng = None
@@ -280,6 +306,22 @@ class SimFS(AbstractFileSystem):
                 self.hits.append(('write-below-floor', path, ev[4], self.seq))
         return ev
 
+    def _revent(self, op, path):
+        """A read-side call: numbered and logged while reads are tracked,
+        failed with EIO when the read plan says so.  Has no effect on the
+        store, so a crash here equals a crash at the next mutating call."""
+        self.rd_calls += 1
+        j = self.rd_calls
+        site = _site()
+        self.rlog.append([j, op, path, self.op_calls, site])
+        kind = self.rplan.get(j)
+        if kind is not None:
+            self.fired.append((('r', j), kind, op, path, site))
+            if self.double:
+                self._double_armed = True
+            raise OSError(errno.EIO, 'injected EIO at read-side call %d (%s)'
+                          % (j, op), path)
+
     def _fault(self, ev, can_partial=False, nbytes=0, is_close=False):
         """Apply the fault plan to this event.  Returns a byte count when a
         partial write is to be applied before ENOSPC, else None."""
@@ -315,9 +357,14 @@ class SimFS(AbstractFileSystem):
                           ev[2])
         raise OSError(errno.EIO, 'injected EIO at call %d' % k, ev[2])
 
-    def begin_op(self, plan=None, double=False, fault_rng=None):
+    def begin_op(self, plan=None, double=False, fault_rng=None, rplan=None,
+                 track_reads=False):
         """Start counting mutating calls for one operation; arm faults."""
         self.op_calls = 0
+        self.rd_calls = 0
+        self.rlog = []
+        self.rplan = {int(k): v for k, v in (rplan or {}).items()}
+        self.track_reads = bool(track_reads or self.rplan)
         self.plan = dict(plan or {})
         self.double = double
         self._double_armed = False
@@ -326,6 +373,8 @@ class SimFS(AbstractFileSystem):
 
     def end_op(self):
         self.plan = {}
+        self.rplan = {}
+        self.track_reads = False
         self.double = False
         self._double_armed = False
 
@@ -435,9 +484,9 @@ class SimFS(AbstractFileSystem):
             self.reads += 1
             if self.io_hook is not None:
                 self.io_hook('open:rb', path)
-            f = io.BytesIO(bytes(self.files[path]))
-            f.name = path
-            return f
+            if self.track_reads:
+                self._revent('open:rb', path)
+            return SimReadFile(self, path, bytes(self.files[path]))
         ev = self._event('open:' + mode, path)
         self._fault(ev)
         existed = path in self.files
@@ -493,6 +542,11 @@ class SimFS(AbstractFileSystem):
     def info(self, path, **kw):
         path = self._strip_protocol(path)
         self._alive()
+        if self.track_reads:
+            self._revent('info', path)
+        return self._info(path)
+
+    def _info(self, path):
         if path in self.files:
             return {'name': path, 'size': len(self.files[path]),
                     'type': 'file'}
@@ -503,14 +557,16 @@ class SimFS(AbstractFileSystem):
     def ls(self, path, detail=True, **kw):
         path = self._strip_protocol(path)
         self._alive()
+        if self.track_reads:
+            self._revent('ls', path)
         if path in self.files:
-            out = [self.info(path)]
+            out = [self._info(path)]
         elif path in self.dirs:
             pre = path + '/' if path else ''
             names = [p for p in set(self.files) | self.dirs
                      if p and p != path and p.startswith(pre)
                      and '/' not in p[len(pre):]]
-            out = [self.info(p) for p in sorted(names)]
+            out = [self._info(p) for p in sorted(names)]
         else:
             raise FileNotFoundError(errno.ENOENT, 'No such file', path)
         return out if detail else [o['name'] for o in out]
@@ -554,6 +610,8 @@ class SimFS(AbstractFileSystem):
         self.reads += 1
         if self.io_hook is not None:
             self.io_hook('cat', path)
+        if self.track_reads:
+            self._revent('cat', path)
         return bytes(self.files[path][slice(start, end)])
 
     # ------------------------------------------------------------------ views
